@@ -341,6 +341,7 @@ class Machine:
 
     def _jsr(self) -> None:
         self._call_stack.enter_routine()
+        self._vm_io.enter_routine()
         inst = self.current_inst
         self._call_stack.set_return(self._reg.pc + 1)
         routine_name = inst.param0
@@ -363,6 +364,7 @@ class Machine:
             self._vm_math.truncate_stack(stack_size)
         self._reg.pc = self._call_stack.get_return()
         self._call_stack.exit_routine()
+        self._vm_io.exit_routine()
 
     def _jump(self) -> None:
         # In the current instruction, param0 contains the condition, and param1
